@@ -130,6 +130,7 @@ class TlcResult:
         self.wall = 0.0
         self.cmd = ""
         self.coverage = {}
+        self.duplicates = 0
 
 
 def run_tlc(module, cfg, workers=None, simulate=None, depth=None, tlc_seed=None, env_extra=None,
@@ -170,8 +171,13 @@ def run_tlc(module, cfg, workers=None, simulate=None, depth=None, tlc_seed=None,
     res.wall = time.time() - t0
     out = p.stdout
     res.stdout = out if keep_stdout else out[-20000:]
+    seen = set()
     for line in out.splitlines():
         if line.startswith('"{') or line.startswith('"['):
+            if line in seen:
+                res.duplicates += 1
+                continue
+            seen.add(line)
             try:
                 res.records.append(json.loads(json.loads(line)))
             except Exception:
